@@ -232,6 +232,11 @@ outer:
 						continue outer // skip this part, as it has q=0
 					}
 					if qVal, err := strconv.ParseFloat(qRaw, 64); err == nil {
+						if qVal == 0 {
+							// "0.00" and "0.000" are zero as well: raised to the least
+							// weight they would turn a refusal into an acceptance.
+							continue outer
+						}
 						q = unique.Make(
 							min(max(qVal, minQValue.Value()), maxQValue.Value()),
 						)
